@@ -245,6 +245,55 @@ func runC19(p *an.Prog, r *an.Run, tier string) {
 				if !hasDef || !hasOv {
 					bad = append(bad, "the "+strings.ToLower(v.meth)+" is not chosen between the override's "+v.meth+"() and the default (the address the host supplied would be ignored, or there would be no default)")
 				}
+				// the default survives an override that leaves this part out: the override's value replaces it only on a
+				// branch on which that value is known to be non-empty
+				var phis []*ssa.Phi
+				seenPhi := map[*ssa.Phi]bool{}
+				var collect func(x ssa.Value)
+				collect = func(x ssa.Value) {
+					if ph, ok := x.(*ssa.Phi); ok && !seenPhi[ph] {
+						seenPhi[ph] = true
+						phis = append(phis, ph)
+						for _, e := range ph.Edges {
+							collect(e)
+						}
+					}
+				}
+				collect(v.v)
+				for _, ph := range phis {
+					for i, e := range ph.Edges {
+						call, isCall := e.(*ssa.Call)
+						if !isCall || !an.IsMethod(an.CallObj(call), "net/url", "URL", v.meth) {
+							continue
+						}
+						pred := ph.Block().Preds[i]
+						okNonEmpty := false
+						rels := ctrlRels(pred)
+						if len(pred.Instrs) > 0 {
+							if iff, isIf := pred.Instrs[len(pred.Instrs)-1].(*ssa.If); isIf {
+								for si, sb := range pred.Succs {
+									if sb == ph.Block() {
+										if rel, ok := an.BranchRel(iff, si); ok {
+											rels = append(rels, ctrlRel{rel, iff, si})
+										}
+									}
+								}
+							}
+						}
+						for _, cr := range rels {
+							l, r0 := cr.L, cr.R
+							if _, isC := an.ConstString(l); isC {
+								l, r0 = r0, l
+							}
+							if cs, isC := an.ConstString(r0); isC && cs == "" && l == ssa.Value(call) && cr.Op == token.NEQ {
+								okNonEmpty = true
+							}
+						}
+						if !okNonEmpty {
+							bad = append(bad, "the override's "+v.meth+"() replaces the default "+strings.ToLower(v.meth)+" without being known non-empty: an override that leaves it out wipes the default (the address the host connected from / port 30303) and the registration is refused or stored without it")
+						}
+					}
+				}
 				// no hand-made splitting or concatenation on the way
 				for _, n := range d.Nodes {
 					if bo, ok := n.(*ssa.BinOp); ok && bo.Op == token.ADD {
@@ -425,6 +474,8 @@ func runC19(p *an.Prog, r *an.Run, tier string) {
 							bad = append(bad, an.FuncName(fn)+" reports the address of a connection type discovered by type assertion ("+p.Pos(ta.Pos())+")")
 						}
 					}
+				case f.Name() == "LocalAddr":
+					bad = append(bad, an.FuncName(fn)+" reports this end's own address ("+p.Pos(x.Pos())+", LocalAddr) as the peer's: a host registering without an override is advertised at the pool's address")
 				case f.Name() == "RemoteAddr" || f.Name() == "Error" || (f.Name() == "String" && x.Common().IsInvoke()):
 					// delegation to the wrapped connection / net.Addr.String() as a whole (host:port, IPv6 in brackets)
 				case f.Pkg() != nil && (f.Pkg().Path() == "net/http" || f.Pkg().Path() == "net" || f.Pkg().Path() == "net/textproto" || f.Pkg().Path() == "strings" || f.Pkg().Path() == "fmt"):
@@ -777,6 +828,26 @@ func runC20(p *an.Prog, r *an.Run, tier string) {
 	if in := an.PathAvoiding(serve, nil, isResetServe, an.IsReturn, nil); in != nil {
 		bad = append(bad, "the keep-alive loop can end at "+p.Pos(in.Pos())+" without clearing the started flag: after a failed keep-alive (or a stop) the agent could not be started again")
 	}
+	// ... and it is cleared when the loop ends, not while it is still running: no keep-alive can be sent after a reset
+	// that has already taken effect (a reset executed at the top instead of deferred lets a second Start through)
+	an.AllInstrs(serve, func(in ssa.Instruction) {
+		if _, isDefer := in.(*ssa.Defer); isDefer || !isResetServe(in) {
+			return
+		}
+		if _, isRD := in.(*ssa.RunDefers); isRD {
+			return
+		}
+		if hit := an.PathAvoiding(serve, in, nil, func(x ssa.Instruction) bool {
+			c, ok := x.(ssa.CallInstruction)
+			if !ok {
+				return false
+			}
+			f := an.CallObj(c)
+			return f != nil && (an.Ident(f.Name()) == "UpdatePeers" || f.Name() == "Update")
+		}, nil); hit != nil {
+			bad = append(bad, "the started flag is cleared at "+p.Pos(in.Pos())+" while the loop goes on to send keep-alives ("+p.Pos(hit.Pos())+"): a second Start is accepted and runs a second loop")
+		}
+	})
 	// a deferred reset must be registered at entry (dominates everything) — covered by the path check starting at the entry
 	// who may write the flag: Start and the loop (directly or through the reset helpers). Any other function writing it
 	// (e.g. the public forced-update entry clearing it on a pool error) clears it behind a loop that is still running,
@@ -948,6 +1019,87 @@ func runC20(p *an.Prog, r *an.Run, tier string) {
 	// the stop case must leave the loop: from the select, a Return is reachable without another tick
 	r.Check(len(bad) == 0, "single-spawn", an.FuncName(start), start.Pos(), "one goroutine, spawned past Connect and UpdatePeers, reporting on waitCh; Stop->stopCh->return; Wait<-waitCh", "%s", strings.Join(dedup(bad), "; "))
 
+	// ---- lazy-init: the agent's channels are made lazily by one initialiser; every method that sends on or receives
+	// from them calls it first — a Wait (or Stop) entered before the first Start otherwise blocks on a nil channel for
+	// ever, also after the agent has been started and stopped
+	{
+		var initFn *ssa.Function
+		for _, fn := range p.Repo {
+			top := fn
+			for top.Parent() != nil {
+				top = top.Parent()
+			}
+			if top.Pkg == nil || !strings.HasSuffix(top.Pkg.Pkg.Path(), "/agent") || p.IsTestFunc(top) {
+				continue
+			}
+			an.AllInstrs(fn, func(in ssa.Instruction) {
+				if st, ok := in.(*ssa.Store); ok {
+					if fv := an.FieldOf(st.Addr); fv != nil && (an.Ident(fv.Name()) == "waitCh" || an.Ident(fv.Name()) == "stopCh") {
+						if _, isMk := st.Val.(*ssa.MakeChan); isMk {
+							initFn = top
+						}
+					}
+				}
+			})
+		}
+		var lb []string
+		nUse := 0
+		if initFn == nil {
+			lb = append(lb, "no function makes the agent's stop/wait channels")
+		} else {
+			for _, m := range []*ssa.Function{start, stop, wait} {
+				if m == initFn {
+					continue
+				}
+				an.AllInstrs(m, func(in ssa.Instruction) {
+					var ch ssa.Value
+					switch x := in.(type) {
+					case *ssa.UnOp:
+						if x.Op == token.ARROW {
+							ch = x.X
+						}
+					case *ssa.Send:
+						ch = x.Chan
+					case *ssa.Go:
+						// the loop is handed the agent; it uses the channels
+						if x.Common().StaticCallee() == serve {
+							ch = nil
+							nUse++
+							okInit := false
+							for _, c := range an.Calls(m, false) {
+								if c.Common().StaticCallee() == initFn && an.Dominates(c.(ssa.Instruction), in) {
+									okInit = true
+								}
+							}
+							if !okInit {
+								lb = append(lb, an.FuncName(m)+" starts the loop at "+p.Pos(in.Pos())+" without having called "+an.FuncName(initFn)+" first")
+							}
+						}
+					}
+					if ch == nil {
+						return
+					}
+					fv := an.FieldOf(stripLoad(ch))
+					if fv == nil || (an.Ident(fv.Name()) != "waitCh" && an.Ident(fv.Name()) != "stopCh") {
+						return
+					}
+					nUse++
+					okInit := false
+					for _, c := range an.Calls(m, false) {
+						if c.Common().StaticCallee() == initFn && an.Dominates(c.(ssa.Instruction), in) {
+							okInit = true
+						}
+					}
+					if !okInit {
+						lb = append(lb, an.FuncName(m)+" uses "+fv.Name()+" at "+p.Pos(in.Pos())+" without having called "+an.FuncName(initFn)+" first: entered before the first Start it waits on a nil channel for ever")
+					}
+				})
+			}
+		}
+		r.Floor("agent-channel-uses", nUse, 2)
+		r.Check(len(lb) == 0, "lazy-init", "agent.Agent", token.NoPos, "every use of the stop/wait channels follows the initialiser", "%s", strings.Join(dedup(lb), "; "))
+	}
+
 	// ---- start-bounded: Start gives the pool a bounded time (startCtx) and undoes itself when that runs out; this
 	// only works if the pool client waits on the context it is handed. Every RemotePool stub passes its own ctx
 	// parameter to the call it makes — a stub that waits on context.Background() makes a silent pool block Start for
@@ -1004,6 +1156,11 @@ func runC20(p *an.Prog, r *an.Run, tier string) {
 			}
 			if !okDef {
 				bad = append(bad, "the default keep-alive period is not store.KeepaliveInterval")
+			}
+			// a one-shot timer (After, NewTimer) fires once: it keeps the cadence only when armed again on every turn of
+			// the loop; made once before the loop it yields a single keep-alive and then silence
+			if (f.Name() == "After" || f.Name() == "NewTimer") && !inLoop(c.(ssa.Instruction)) {
+				bad = append(bad, "the loop waits on a one-shot timer ("+an.ObjString(f)+" at "+p.Pos(c.Pos())+") created outside the loop: after the first keep-alive no further one is ever sent")
 			}
 		}
 	}
